@@ -130,6 +130,7 @@ static MPT_STRUCT(buffer) *_mpt_buffer_alloc_detach(MPT_STRUCT(buffer) *ptr, siz
 		const MPT_STRUCT(buffer) *src = &buf->buf;
 		if (mpt_buffer_set(next, src->_content_traits, 0, src + 1, src->_used) < 0) {
 			_mpt_buffer_alloc_unref(next);
+			mpt_refcount_raise(&buf->_ref);
 			return 0;
 		}
 	}
